@@ -88,6 +88,8 @@ EXTRA = [
     # ... and written without brackets as the argument of another call (every bracket style of the outer call)
     'name , year(curdate) from . limit 2', 'name , concat(curdate , name) , length(upper(current_user)) from . limit 2', 'name from . where year(modified) le year(curdate) limit 2',
     'name , upper(concat(name , current_uid)) from . limit 2', 'count(*) from . group by year(curdate) + 1',
+    # a window whose upper bound is below its lower bound, in both orders (the alias means the same bound)
+    'name from . mindepth 2 maxdepth 1', 'name from . mindepth 3 maxdepth 2 dfs', 'name from sub maxdepth 1 mindepth 2 , e mindepth 2 maxdepth 1', 'name mindepth 2 maxdepth 1',
     'name from su.* regexp', 'name from [s]ub maxdepth 1 regexp', 'name , size from e , su.* regexp dfs where name regexp ^a order by 1',
 ]
 
